@@ -126,6 +126,20 @@ func (e *Engine) vpCall(st *State, name string, args []Value, site ssa.Instructi
 		in.Term, in.Len, in.Max = a, lt, mx
 		id := st.newObj(SymArrVal{A: a, N: lt, Elem: types.Typ[types.Uint8], NeedRange: true}, nil)
 		ret(st, SliceVal{Obj: id, Off: KInt64(0), Len: lt, Cap: lt})
+	case "Runes":
+		// ASCII runes
+		label := constStr(args[0], "vp label")
+		mx := constInt(args[1], "vp.Runes maxLen")
+		in := e.newInput(st, label, "bytes", "[]rune")
+		a := e.freshVar("in_"+label, SArr)
+		ln := e.fresh("len_" + label)
+		e.sol.Declare(ln, SInt)
+		lt := IntVarR(ln, big0, big.NewInt(int64(mx)))
+		e.sol.Assert(And(Le(KInt64(0), stripFacts(lt)), Le(stripFacts(lt), KInt64(int64(mx)))))
+		in.Term, in.Len, in.Max = a, lt, mx
+		e.res.Assumptions["vp.Runes: runes are ASCII (0..127)"]++
+		id := st.newObj(SymArrVal{A: a, N: lt, Elem: types.Typ[types.Int32], NeedRange: true, RLo: big0, RHi: big.NewInt(127)}, nil)
+		ret(st, SliceVal{Obj: id, Off: KInt64(0), Len: lt, Cap: lt})
 	case "Float64":
 		label := constStr(args[0], "vp label")
 		in := e.newInput(st, label, "float", "float64")
